@@ -10,7 +10,7 @@ MANIFEST = {
                  'RPC / scheduler delivery in between) + exhaustive lifecycle table check + trace monitors on generated '
                  'stop histories',
     'text': 'Single workflow (Mistral.Props.C11 over Mistral.Engine): finished_is_inert, stop_sets_requested_state, '
-            'stop_only_requested. ENGINE COMMANDS (Mistral.Props.C11X over Mistral.Engine.stepX, Model/EngineX.lean: fail / succeed / pause / noop in on-clauses, dispatcher._process_commands / _rearrange_commands incl. the sort, the command BACKLOG, RunExistingTask commands; tied by the core stream whose programs carry engine commands): no_dispatch_into_completed (EVERY world, every event: in a completed workflow no task execution is created and the state does not change, ALSO NOT THROUGH THE BACKLOG - a backlog polled there is dropped), no_dispatch_into_completed_reachable, pause_command_saves_rest (the commands after a `pause` command are saved, nothing of them is created), backlog_untouched_while_paused (never lost), backlog_restored_once (when polled in a RUNNING workflow each saved task command is dispatched exactly once: one execution + one start request each, backlog empty afterwards), restored_join_is_plain (known finding: a join command restored from the backlog has lost wait / unique_key and starts at once as a plain task). '
+            'stop_only_requested (with engine commands: Mistral.Props.C11Cmd.stop_sets_requested_stateX, stop_only_requestedX, stopped_with_backlog_inert). ENGINE COMMANDS (Mistral.Props.C11X over Mistral.Engine.stepX, Model/EngineX.lean: fail / succeed / pause / noop in on-clauses, dispatcher._process_commands / _rearrange_commands incl. the sort, the command BACKLOG, RunExistingTask commands; tied by the core stream whose programs carry engine commands): no_dispatch_into_completed (EVERY world, every event: in a completed workflow no task execution is created and the state does not change, ALSO NOT THROUGH THE BACKLOG - a backlog polled there is dropped), no_dispatch_into_completed_reachable, pause_command_saves_rest (the commands after a `pause` command are saved, nothing of them is created), backlog_untouched_while_paused (never lost), backlog_restored_once (when polled in a RUNNING workflow each saved task command is dispatched exactly once: one execution + one start request each, backlog empty afterwards), restored_join_defers (since repo_patches/32 a join command restored from the backlog keeps wait / unique_key and defers to the WAITING execution of the join like a fresh one; was the finding join-created-idle). '
             'Tree (Mistral.Props.C11Tree over Mistral.Tree, ALL definitions / trees / event '
             'histories, by an invariant `Good` every transaction satisfies): stop_holds_requested_state (a RUNNING '
             'execution anywhere in the tree takes the requested state and the message in the transaction of the request); '
@@ -62,7 +62,7 @@ TRUSTED = ['harness seams replaced by recorders',
            'row-lock waits modelled, not executed on sqlite',
            'tree stream: executions and task executions are identified by creation rank; state_info / output are compared '
            'by class (none / the operator message / engine-computed)']
-LEAN_MODULES = ['Mistral.Props.C11', 'Mistral.Props.C11X', 'Mistral.Props.C11Tree', 'Mistral.Props.C03Race', 'Mistral.Props.C03RaceCac']
+LEAN_MODULES = ['Mistral.Props.C11', 'Mistral.Props.C11X', 'Mistral.Props.C11Tree', 'Mistral.Props.C03Race', 'Mistral.Props.C03RaceCac', 'Mistral.Props.C01X', 'Mistral.Props.C03X', 'Mistral.Props.C11Cmd']
 # second/third round: the C11Tree theorems are at full strength and hold for EVERY event history (stops, pause and
 # resume commands with their propagation, lost post-commit operations); see docs/C11.md
 RACE_CHUNKS = [{'family': 'wf', 'scenarios': ['cacSucceed', 'stopCancel']},
